@@ -234,10 +234,183 @@ Proof.
   destruct (Nat.eqb _ 0) eqn:Ez; [discriminate|].
   intros H. inversion H; subst buf g'. clear H.
   split; [reflexivity|]. split.
-  - apply Nat.eqb_neq in Ez. lia.
+  - apply Nat.eqb_neq in Ez. change (edge_count (map (tf_map (names_of fwd)) g) < edge_count g). lia.
   - assert (Hl : Forall (fun t => In t (all_decls g) /\ is_type t = true) (d :: l)).
     { change (d :: l) with (snd (most, d :: l)). rewrite <- E. apply tf_fold_spec; [|constructor].
       intros nd t H1 H2 H3. split; [apply all_decls_In; eauto|exact H3]. }
     unfold fwd. apply Forall_forall. intros e He. apply in_map_iff in He as [t [Et Ht]].
     rewrite Forall_forall in Hl. destruct (Hl t Ht). exists t. auto.
+Qed.
+
+(* ---------- building the graph ---------- *)
+Definition gsorted (g : graph) : Prop := StronglySorted str_lt (gnames g).
+
+Lemma g_add_names g d x : In x (gnames (g_add g d)) <-> x = dname d \/ In x (gnames g).
+Proof.
+  induction g as [|nd g IH]; simpl; [intuition|].
+  destruct (str_cmp (dname d) (gname nd)) eqn:E; simpl.
+  - apply str_cmp_eq in E. rewrite E. intuition.
+  - intuition.
+  - rewrite IH. intuition.
+Qed.
+
+Lemma g_add_sorted g d : gsorted (g_add g d) <-> gsorted g.
+Proof.
+  unfold gsorted. induction g as [|nd g IH]; simpl.
+  - split; intros; repeat constructor.
+  - destruct (str_cmp (dname d) (gname nd)) eqn:E; simpl.
+    + reflexivity.
+    + split; intros H.
+      * inversion H; assumption.
+      * constructor; [exact H|]. inversion H; subst. constructor; [exact E|].
+        rewrite Forall_forall in *. intros x Hx. eapply str_lt_trans; [exact E|auto].
+    + apply str_lt_gt in E. split; intros H; inversion H; subst; constructor.
+      * apply IH. assumption.
+      * rewrite Forall_forall in *. intros x Hx. apply H3. apply (g_add_names g d). right. exact Hx.
+      * apply IH. assumption.
+      * rewrite Forall_forall in *. intros x Hx. apply (g_add_names g d) in Hx as [->|Hx]; auto.
+Qed.
+
+Lemma sorted_NoDup l : StronglySorted str_lt l -> NoDup l.
+Proof.
+  induction 1 as [|x l H IH Hx]; constructor; [|exact IH].
+  intros Hin. rewrite Forall_forall in Hx. apply (str_lt_irrefl x). apply Hx. exact Hin.
+Qed.
+
+Lemma g_add_named g d :
+  (forall nd e, In nd g -> In e (gdecls nd) -> dname e = gname nd) ->
+  forall nd e, In nd (g_add g d) -> In e (gdecls nd) -> dname e = gname nd.
+Proof.
+  induction g as [|x g IH]; simpl; intros H nd e Hin He.
+  - destruct Hin as [<-|[]]. simpl in *. destruct He as [<-|[]]. reflexivity.
+  - destruct (str_cmp (dname d) (gname x)) eqn:E.
+    + destruct Hin as [<-|Hin]; [|apply (H nd e); auto]. simpl in *.
+      apply in_app_iff in He as [He|[<-|[]]]; [apply (H x e); auto|]. apply str_cmp_eq. exact E.
+    + destruct Hin as [<-|Hin]; [|apply (H nd e); auto]. simpl in *. destruct He as [<-|[]]. reflexivity.
+    + destruct Hin as [<-|Hin]; [apply (H x e); auto|]. apply IH with (nd := nd); auto.
+Qed.
+
+Lemma g_add_perm g d : Permutation (all_decls (g_add g d)) (d :: all_decls g).
+Proof.
+  induction g as [|x g IH]; simpl; [reflexivity|].
+  destruct (str_cmp (dname d) (gname x)); simpl.
+  - fold (all_decls g). rewrite <- app_assoc. simpl.
+    rewrite <- Permutation_middle. reflexivity.
+  - reflexivity.
+  - fold (all_decls (g_add g d)). fold (all_decls g). rewrite IH.
+    rewrite <- Permutation_middle. reflexivity.
+Qed.
+
+Lemma decl_map_props_gen l g :
+  gsorted g -> (forall nd e, In nd g -> In e (gdecls nd) -> dname e = gname nd) ->
+  let g' := fold_left g_add l g in
+  gsorted g' /\ (forall nd e, In nd g' -> In e (gdecls nd) -> dname e = gname nd) /\
+  Permutation (all_decls g') (l ++ all_decls g).
+Proof.
+  revert g. induction l as [|d l IH]; simpl; intros g H1 H2; [auto|].
+  destruct (IH (g_add g d)) as [A [B C]]; [apply g_add_sorted; exact H1|apply g_add_named; exact H2|].
+  split; [exact A|]. split; [exact B|]. rewrite C, g_add_perm. symmetry. apply Permutation_middle.
+Qed.
+
+Lemma with_edges_shape : same_shape (fun nd => mkNode (gname nd) (gdecls nd) (sort_unique (flat_map ddeps (gdecls nd)))).
+Proof. intros nd. simpl. auto. Qed.
+
+Lemma build_gwf ds : gwf (build ds).
+Proof.
+  unfold build, with_edges. apply shape_gwf; [apply with_edges_shape|].
+  destruct (decl_map_props_gen (resolve ds) []) as [A [B _]]; [constructor|intros ? ? []|].
+  split; [apply sorted_NoDup; exact A|exact B].
+Qed.
+
+Lemma build_perm ds : Permutation (all_decls (build ds)) (resolve ds).
+Proof.
+  unfold build, with_edges. rewrite shape_all_decls by apply with_edges_shape.
+  destruct (decl_map_props_gen (resolve ds) []) as [_ [_ C]]; [constructor|intros ? ? []|].
+  simpl in C. rewrite app_nil_r in C. exact C.
+Qed.
+
+Lemma build_edges ds nd : In nd (build ds) -> gedges nd = sort_unique (flat_map ddeps (gdecls nd)).
+Proof.
+  unfold build, with_edges. intros H. apply in_map_iff in H as [x [<- _]]. reflexivity.
+Qed.
+
+(* ---------- each declaration exactly once ---------- *)
+Definition fwd_of_type (D : list decl) (e : decl) : Prop :=
+  exists t, In t D /\ is_type t = true /\ e = set_kind t KTypeFwd.
+
+Definition no_fwd_in (l : list decl) : Prop := Forall (fun d => is_fwd d = false) l.
+
+Lemma no_fwd_sub l l' : (forall d, In d l' -> In d l) -> no_fwd_in l -> no_fwd_in l'.
+Proof. unfold no_fwd_in. rewrite !Forall_forall. auto. Qed.
+
+Lemma set_kind_fwd t : is_fwd (set_kind t KTypeFwd) = true.
+Proof. reflexivity. Qed.
+
+Lemma all_decls_del_sub g n d : In d (all_decls (del_node g n)) -> In d (all_decls g).
+Proof.
+  rewrite !all_decls_In. intros [nd [H1 H2]]. apply del_node_In in H1 as [H1 _]. eauto.
+Qed.
+
+Lemma loop_each_once fuel : forall g acc out,
+  gwf g -> no_fwd_in (all_decls g) -> sort_loop fuel g acc = Ok out ->
+  exists rest, out = acc ++ rest /\ Permutation (nofwd rest) (all_decls g) /\
+               Forall (fun e => is_fwd e = true -> fwd_of_type (all_decls g) e) rest.
+Proof.
+  induction fuel as [|f IH]; intros g acc out Hwf Hnf H.
+  - destruct g; simpl in H; [|discriminate]. inversion H; subst. exists []. rewrite app_nil_r. repeat split; constructor.
+  - destruct g as [|x g0]; [simpl in H; inversion H; subst; exists []; rewrite app_nil_r; repeat split; constructor|].
+    remember (x :: g0) as g. simpl in H. rewrite Heqg in H at 1.
+    destruct (remove_nodes_no_deps g) as [[nd g']|] eqn:E.
+    + apply rnnd_spec in E as [Hin [_ ->]].
+      assert (Hsub : forall d, In d (all_decls (del_node g (gname nd))) -> In d (all_decls g)) by (intros; eapply all_decls_del_sub; eauto).
+      apply IH in H as [rest [-> [P F]]].
+      * exists (sort_by_pos (gdecls nd) ++ rest). split; [rewrite app_assoc; reflexivity|]. split.
+        -- rewrite nofwd_app, P, all_decls_remove_unresolvable.
+           rewrite nofwd_id.
+           ++ rewrite (del_node_perm g nd) by (destruct Hwf; assumption). apply Permutation_app_tail. apply sort_by_pos_perm.
+           ++ unfold no_fwd_in in Hnf. rewrite Forall_forall in *. intros d Hd. apply Hnf. apply sort_by_pos_In in Hd.
+              apply all_decls_In. eauto.
+        -- apply Forall_app. split.
+           ++ rewrite Forall_forall. intros d Hd Hf. apply sort_by_pos_In in Hd.
+              unfold no_fwd_in in Hnf. rewrite Forall_forall in Hnf. rewrite Hnf in Hf; [discriminate|]. apply all_decls_In. eauto.
+           ++ rewrite all_decls_remove_unresolvable in F. eapply Forall_impl; [|exact F]. simpl. intros e He Hf.
+              destruct (He Hf) as [t [H1 H2]]. exists t. split; auto.
+      * apply gwf_remove_unresolvable, gwf_del_node. exact Hwf.
+      * rewrite all_decls_remove_unresolvable. eapply no_fwd_sub; eauto.
+    + destruct (remove_type_fwd g) as [| |buf g'] eqn:E2; try discriminate.
+      apply remove_type_fwd_spec in E2 as [-> [_ Hbuf]].
+      assert (Had : all_decls (map (tf_map (names_of buf)) g) = all_decls g) by (apply shape_all_decls, tf_map_shape).
+      apply IH in H as [rest [-> [P F]]].
+      * exists (sort_by_pos buf ++ rest). split; [rewrite app_assoc; reflexivity|]. split.
+        -- rewrite nofwd_app, P, all_decls_remove_unresolvable, Had. rewrite nofwd_none; [reflexivity|].
+           rewrite Forall_forall in *. intros e He. apply sort_by_pos_In in He. destruct (Hbuf e He) as [t [_ [_ ->]]]. reflexivity.
+        -- apply Forall_app. split.
+           ++ rewrite Forall_forall in *. intros e He _. apply sort_by_pos_In in He. apply Hbuf. exact He.
+           ++ rewrite all_decls_remove_unresolvable, Had in F. exact F.
+      * apply gwf_remove_unresolvable, shape_gwf; [apply tf_map_shape|exact Hwf].
+      * rewrite all_decls_remove_unresolvable, Had. exact Hnf.
+Qed.
+
+Lemma resolve_kind ds : map dkind (resolve ds) = map dkind ds.
+Proof. unfold resolve. rewrite map_map. reflexivity. Qed.
+
+Lemma resolve_no_fwd ds : Forall (fun d => dkind d <> KTypeFwd) ds -> no_fwd_in (resolve ds).
+Proof.
+  unfold no_fwd_in, resolve. rewrite !Forall_forall. intros H d Hd. apply in_map_iff in Hd as [x [<- Hx]].
+  unfold is_fwd. simpl. specialize (H x Hx). destruct (dkind x); try reflexivity. congruence.
+Qed.
+
+Lemma each_once ds out : Forall (fun d => dkind d <> KTypeFwd) ds -> sort ds = Ok out ->
+  Permutation (nofwd out) (resolve ds) /\
+  Forall (fun e => is_fwd e = true -> fwd_of_type (resolve ds) e) out.
+Proof.
+  intros Hk H. unfold sort, sort_graph in H.
+  assert (Hnf : no_fwd_in (all_decls (build ds))).
+  { eapply no_fwd_sub; [|apply resolve_no_fwd; exact Hk]. intros d. apply Permutation_in. apply build_perm. }
+  apply loop_each_once in H as [rest [-> [P F]]].
+  - simpl. rewrite all_decls_remove_unresolvable in *. split; [rewrite P; apply build_perm|].
+    eapply Forall_impl; [|exact F]. simpl. intros e He Hf. destruct (He Hf) as [t [H1 H2]]. exists t. split; [|exact H2].
+    eapply Permutation_in; [apply build_perm|exact H1].
+  - apply gwf_remove_unresolvable, build_gwf.
+  - rewrite all_decls_remove_unresolvable. exact Hnf.
 Qed.
